@@ -33,13 +33,15 @@ def call_st(draw, case):
                                  "cpu_list", "cpu_list", "sortby", "combo"]))
     mesh_names = ["level", "cpu", "dx"] + [f"position_{c}" for c in "xyz"[: case["ndim"]]] + case["hydro_vars"]
     part_names = [n for n, _ in case["part_desc"]]
+    extra_sort = draw(st.sampled_from([None, None, None, {"mesh": "density"}, {"part": "P0"}, {"mesh": "density", "part": "P0"}]))
     if kind == "plain":
-        return {"k": "plain"}
+        return {"k": "plain", "sortby": extra_sort}
     if kind == "groups":
         return {"k": "groups", "v": draw(st.sampled_from([["part"], ["sink"], ["part", "sink"], ["mesh"], "part",
-                                                         ["mesh", "part"]]))}
+                                                         ["mesh", "part"]])), "sortby": extra_sort}
     if kind == "off":
-        return {"k": "off", "v": draw(st.sampled_from([["mesh"], ["part"], ["mesh", "sink"], ["sink"]]))}
+        return {"k": "off", "v": draw(st.sampled_from([["mesh"], ["part"], ["mesh", "sink"], ["sink"]])),
+                "sortby": extra_sort}
     if kind == "vars":
         sel = {}
         if draw(st.booleans()):
@@ -53,6 +55,8 @@ def call_st(draw, case):
     if kind == "level":
         return {"k": "pred", "spec": {"level": draw(rs.level_preds(case["levelmax"]))}}
     if kind == "val":
+        if draw(st.integers(0, 3)) == 0:
+            return {"k": "pred", "spec": {"val": {"var": "density", "op": ">", "qf": 0.5, "none": True}}}
         return {"k": "pred", "spec": {"val": draw(rs.value_preds(case["hydro_vars"]))}}
     if kind == "cpu_list":
         return {"k": "cpu_list", "v": draw(st.lists(st.integers(1, case["ncpu"]), min_size=1, max_size=3, unique=True))}
@@ -97,14 +101,43 @@ def case_st(draw):
     return case
 
 
+def _extra_sort(call, m):
+    sb = call.get("sortby")
+    if not sb:
+        return {}
+    out = {}
+    for g, key in sb.items():
+        if g == "part":
+            sc, _ = rc.merged_names([n for n, _ in m.part_desc], m.ndim)
+            if not sc:
+                continue
+            key = sc[0]
+        out[g] = key
+    return {"sortby": out} if out else {}
+
+
+def _expected_groups(call, m, has_sink):
+    """which groups a call must produce, from its arguments alone"""
+    allg = {"mesh", "part"} | ({"sink"} if has_sink else set())
+    k = call["k"]
+    if k == "groups":
+        v = call["v"]
+        return ({v} if isinstance(v, str) else set(v)) & allg
+    if k == "off":
+        return allg - set(call["v"])
+    if k == "pred" and call.get("with_off"):
+        return allg - {call["with_off"]}
+    return allg
+
+
 def _kwargs(call, m, exp_all):
     k = call["k"]
     if k == "plain":
-        return {}
+        return dict(_extra_sort(call, m))
     if k == "groups":
-        return {"select": call["v"]}
+        return dict({"select": call["v"]}, **_extra_sort(call, m))
     if k == "off":
-        return {"select": {g: False for g in call["v"]}}
+        return dict({"select": {g: False for g in call["v"]}}, **_extra_sort(call, m))
     if k == "vars":
         return {"select": {g: list(v) for g, v in call["v"].items()}}
     if k == "cpu_list":
@@ -119,6 +152,8 @@ def _kwargs(call, m, exp_all):
     if call.get("allaxes") and spec.get("pos") and spec["pos"]["form"] == "leaf":
         spec["pos"] = dict(spec["pos"], axes="xyz"[: m.ndim], shift=(spec["pos"]["shift"] + [0.1, -0.2, 0.3])[: m.ndim])
     res = rs.resolve(spec, m, exp_all)
+    if spec.get("val") and spec["val"].get("none") and res["val"]:
+        res["val"] = (res["val"][0], ">", float(np.max(exp_all[res["val"][0]])) * 4.0 + 1.0)      # no cell qualifies
     sel = {"mesh": rs.build_select(osyris, res, m)}
     if call.get("with_off"):
         sel[call["with_off"]] = False
@@ -198,6 +233,11 @@ def history(case, r):
             nfiles = rc.files_opened(out.getvalue())
             ffiles = rc.files_opened(fout)
             produced = set(fresh.keys())
+            want_groups = _expected_groups(call, m, (case.get("sink") or {}).get("mode") in ("file", "empty"))
+            if produced != want_groups:
+                r.bad(["produced-groups", call["k"]], f"{where}: a fresh dataset returned groups {sorted(produced)}, the arguments "
+                      f"ask for {sorted(want_groups)}")
+                return
             uses_mesh = "mesh" in produced
             if (restricted_before and not uses_mesh) or (capped_before and uses_mesh and not (
                     call["k"] == "pred" and call["spec"].get("level"))):
@@ -218,6 +258,14 @@ def history(case, r):
                 if why:
                     r.bad(["untouched-group-changed", g, call["k"]], f"{where}: group {g} not produced by this call but {why}")
                     return
+            if "mesh" in produced:
+                nrows = len(ds["mesh"]["level"].values) if "level" in ds["mesh"].keys() else (
+                    0 if len(ds["mesh"].keys()) == 0 else None)
+                if nrows is not None and int(ds.meta["ncells"]) != nrows:
+                    r.bad(["meta-ncells-vs-group", call["k"]], f"{where}: meta ncells {ds.meta['ncells']} but the mesh group has {nrows} rows")
+                    return
+                if nrows == 0:
+                    r.label("empty_mesh_result")
             if "mesh" in produced and int(ds.meta["ncells"]) != int(fresh.meta["ncells"]):
                 r.bad(["meta-ncells", call["k"]], f"{where}: {ds.meta['ncells']} vs fresh {fresh.meta['ncells']}")
                 return
